@@ -45,8 +45,10 @@ void h_blindRotate(void) {
     int32_t *bara = verif_alloc((size_t)n * sizeof(int32_t));
     BKROW *bk = verif_alloc((size_t)n * sizeof(BKROW));
     TLweSample *acc = verif_alloc(sizeof(TLweSample));
-    TGswParams *P = verif_alloc(sizeof(TGswParams));
+    TGswParams *P = verif_alloc(sizeof(TGswParams)); TLweParams *TP = verif_alloc(sizeof(TLweParams));
+    int32_t N; __CPROVER_assume(N >= 1 && N <= VERIF_NMAX / 2); *(int32_t *)&TP->N = N; *(const TLweParams **)&P->tlwe_params = TP;
     int32_t gi; __CPROVER_assume(gi >= 0 && gi < n); g_i = gi;
+    __CPROVER_assume(bara[gi] >= 0 && bara[gi] < 2 * N);       /* exponents come from the modulus switch to Z_2N */
     g_bk = bk; g_bara = bara; g_accum = acc; g_cur = acc; g_temp = 0; g_bad = 0; g_last_i = -1; g_calls_watched = 0; g_copied = 0; g_deleted = 0; g_par = P; live_allocs = 0; seq = 0;
     int32_t watched = bara[g_i];
     SUF(tfhe_blindRotate)(acc, bk, bara, n, P);
@@ -55,7 +57,7 @@ void h_blindRotate(void) {
     __CPROVER_assert(g_calls_watched == (watched != 0), "index g_i is rotated exactly once iff bara[g_i] != 0");
     __CPROVER_assert(g_deleted == 1 && live_allocs == 0, "temporary released exactly once");
     __CPROVER_assert(bara[g_i] == watched, "exponent array untouched");
-    free(bara); free(bk); free(acc); free(P);
+    free(bara); free(bk); free(acc); free(P); free(TP);
     VERIF_REACH();
 }
 #endif
